@@ -66,4 +66,50 @@ mod tests {
             .collect();
         assert_eq!(pos, vec![(2, 3), (3, 2), (4, 2)]);
     }
+
+    /// C15: control characters print as \uXXXX with hexadecimal digits and parse back.
+    #[test]
+    fn c15_control_characters_round_trip() {
+        for c in ['\u{1b}', '\u{7f}', '\u{0}', '\u{9f}'] {
+            let v = Value::String(c.to_string());
+            let text = format!("{{ f(a: {}) }}", v);
+            let doc = async_graphql::parser::parse_query(&text).unwrap();
+            let op = doc.operations.iter().next().unwrap().1;
+            let f = match &op.node.selection_set.node.items[0].node {
+                async_graphql::parser::types::Selection::Field(f) => f,
+                _ => unreachable!(),
+            };
+            let back = f.node.arguments[0].1.node.clone().into_const().unwrap();
+            assert_eq!(back, v, "printed as {}", text);
+        }
+    }
+
+    /// C33: an object field of type `String!` is a valid implementation of an interface
+    /// field of type `String` (covariant), and `String` is NOT a valid implementation of `String!`.
+    #[test]
+    fn c33_interface_field_type_direction() {
+        use async_graphql::dynamic::*;
+        let build = |obj_ty: TypeRef, iface_ty: TypeRef| {
+            let iface = Interface::new("I").field(InterfaceField::new("f", iface_ty));
+            let obj = Object::new("O")
+                .implement("I")
+                .field(Field::new("f", obj_ty, |_| FieldFuture::new(async { Ok(None::<FieldValue>) })));
+            let query = Object::new("Query").field(Field::new("o", TypeRef::named("O"), |_| {
+                FieldFuture::new(async { Ok(None::<FieldValue>) })
+            }));
+            Schema::build("Query", None, None)
+                .register(iface)
+                .register(obj)
+                .register(query)
+                .finish()
+        };
+        assert!(
+            build(TypeRef::named_nn(TypeRef::STRING), TypeRef::named(TypeRef::STRING)).is_ok(),
+            "String! must be accepted as an implementation of String"
+        );
+        assert!(
+            build(TypeRef::named(TypeRef::STRING), TypeRef::named_nn(TypeRef::STRING)).is_err(),
+            "String must be rejected as an implementation of String!"
+        );
+    }
 }
